@@ -33,6 +33,7 @@ type Page struct {
 	Items  []string `json:"items"`
 	Single bool     `json:"single,omitempty"`  // one item given as a bare value, not a list
 	NoKey  bool     `json:"no_key,omitempty"`  // no items key at all (only when Items is empty)
+	Total  *int     `json:"total,omitempty"`   // totalItems as this page states it (may understate, overstate, or be absent)
 	Edge   string   `json:"edge"`              // none embedded embedded-id remote stub back broken-404 broken-type broken-note
 	BackTo int      `json:"back_to,omitempty"` // back: index of an earlier (or the same) remote page
 	Remote bool     `json:"remote"`            // derived: this page is served by the simulator (has a URL)
@@ -84,6 +85,9 @@ func (c Case) doc(prefix string, i int) map[string]any {
 			}
 			m[c.itemsKey()] = list
 		}
+	}
+	if p.Total != nil {
+		m["totalItems"] = *p.Total // informational only: what a page says about the size must not change what is delivered
 	}
 	nextKey := "next"
 	if i == 0 {
@@ -355,6 +359,10 @@ func gen(t *rapid.T) Case {
 			serial++
 			p.Items = append(p.Items, fmt.Sprintf("t%d", serial))
 		}
+		if rapid.IntRange(0, 2).Draw(t, "hastotal") == 0 {
+			v := rapid.SampledFrom([]int{0, 1, 2, n, n + 1, 3, 50}).Draw(t, "total")
+			p.Total = &v
+		}
 		p.Single = rapid.IntRange(0, 4).Draw(t, "single") == 0
 		p.NoKey = rapid.Bool().Draw(t, "nokey")
 		c.Pages = append(c.Pages, p)
@@ -396,4 +404,13 @@ func gen(t *rapid.T) Case {
 }
 
 func TestProp(t *testing.T)   { vrep.Run(t, "Prop", true, gen, check) }
-func TestReplay(t *testing.T) { vrep.Replay(t, "Prop", check) }
+func TestReplay(t *testing.T) {
+	switch vrep.ReplayCheckName() {
+	case "UIPaging":
+		for i := 0; i < 15; i++ { // schedule-dependent: replay the stimulus several times
+			vrep.Replay(t, "UIPaging", checkUIPaging)
+		}
+	default:
+		vrep.Replay(t, "Prop", check)
+	}
+}
